@@ -143,7 +143,7 @@ pub fn meta(prop: Prop) -> Meta {
         Prop::C03 => Meta {
             level: "exploration",
             rule: "one evaluation = one simulated conversation: seeded abstract messages (all 17 handshake variants, CCS, alerts, application data, heartbeat with padding) packed into records by a seeded record layer (coalescing of same-type messages; in the malformed-peer batch constructively malformed first messages, empty payloads, unknown content types and malformed tails), delivered through the byte pipe; for every framed record the real one-step (parse_tls_plaintext) and two-step (raw record + parse_tls_record_with_header) pipelines are compared with the sender's log, field by field through an independent value->abstract-item walker; distinct = distinct abstract traces; non-trivial = >= 2 records / events or a fault fired",
-            fault_kinds: &["coalesce", "malformed-first", "malformed-tail", "seg-dribble", "trailing-inflight", "eof"],
+            fault_kinds: &["coalesce", "crowded-record", "malformed-first", "malformed-tail", "seg-dribble", "trailing-inflight", "eof"],
             cell_spaces: vec![("rec", Some((0..18).filter(|i| ![3 * 3 + 1, 3 * 3 + 2, 4 * 3 + 2, 5 * 3, 5 * 3 + 2].contains(i)).collect()))],
             real: &["parse_tls_plaintext", "parse_tls_raw_record", "parse_tls_record_with_header", "all per-message and handshake body parsers reached through them", "Debug of returned values"],
             stub: &["peer message generator", "reference RFC encoder", "record layer (packing plan)", "byte pipe", "sent-log / delivered-log comparator"],
@@ -168,7 +168,7 @@ pub fn meta(prop: Prop) -> Meta {
         Prop::C09 => Meta {
             level: "exploration",
             rule: "one evaluation = one run of the sending node: 1..4 serialization operations on seeded values (ClientHello incl. up to 32767 ciphers / 255 compressions / 65535-byte extension blocks, ServerHello SSLv3..TLS1.2, draft-18 ServerHello, ClientKeyExchange Unknown/Dh/Ecdh, Finished, HelloRequest, ChangeCipherSpec, plaintext records of them, SNI / max-fragment-length / supported-groups extensions and lists, unsupported values, and values obtained from the real parser) written through gen(f, sink) into the simulated Write sink under a seeded fault plan, or through Serialize::serialize; the receiving node is the real parser; distinct = distinct abstract traces (value kind x entry point x sink mode x outcome x size class per operation); non-trivial = at least 2 operations or a fault configured",
-            fault_kinds: &["write-short", "write-zero", "write-interrupted", "write-error", "sink-full", "sink-fault-fired", "coalesce", "value-from-parser"],
+            fault_kinds: &["write-short", "write-zero", "write-interrupted", "write-error", "sink-full", "write-interrupted-burst", "sink-fault-fired", "coalesce", "value-from-parser"],
             cell_spaces: vec![("ser", None)],
             real: &["gen_tls_plaintext", "gen_tls_message", "gen_tls_clienthello", "gen_tls_serverhello", "gen_tls_serverhellodraft18", "gen_tls_clientkeyexchange", "gen_tls_finished", "gen_tls_hellorequest", "gen_tls_changecipherspec", "gen_tls_extension(s)", "Serialize::serialize", "parse_tls_plaintext / parse_tls_message_handshake / parse_tls_message_changecipherspec / parse_tls_extensions (receiving node)", "cookie-factory WriteContext (dependency, real)"],
             stub: &["value generator", "reference RFC encoder (byte oracle)", "simulated Write sink with fault plan", "fixed-size &mut [u8] sink (std impl)"],
